@@ -93,3 +93,81 @@ def _(vc):
         f, k, n, d = vc.index_consts([F, K, N, 6])
         vc.ensure("own_variable_column_holds_the_sample_all_others_zero",
                   y.elem([f, k, n, d]) == z3.If(d == sidx.elem([f, 0]), samples.elem([f, k, n]), 0))
+
+
+# ------------------------------------------------------------------------------------------------ SamplingQuery: glue
+from engine.values import Builtin, PartialVal, FuncVal
+
+LP_ = "cirkit/backend/torch/layers/input.py"
+
+
+@obligation("C15.query.layer_fn.input_layer", "C15", [f"{QU}:SamplingQuery._layer_fn"])
+def _(vc):
+    """an input layer is asked for `num_samples` samples, which are padded with the layer's OWN scope index and recorded"""
+    q = Obj(vc.repo.lookup(f"{QU}:SamplingQuery"), {"_circuit": Opaque("circuit")})
+    N = vc.int("num_samples", lo=1)
+    raw, padded, sidx = Opaque("raw_samples"), Opaque("padded_samples"), Opaque("scope_idx")
+    asked, pads = [], []
+    layer = Opaque("input_layer", {"scope_idx": sidx}, cls=vc.repo.lookup(f"{LP_}:TorchCategoricalLayer"))
+    layer.attrs["sample"] = lambda o: Builtin("sample", lambda n: asked.append(n) or raw)
+    vc.I.summaries[f"{QU}:SamplingQuery._pad_samples"] = lambda I, a, k: pads.append(a[1:]) or padded
+    mix = []
+    out = vc.call((q, "_layer_fn"), layer, num_samples=N, mixture_samples=mix)
+    vc.ensure("asks_the_layer_for_num_samples_samples", len(asked) == 1 and vc.must(to_z3(asked[0]) == N))
+    vc.ensure("pads_them_with_the_layers_own_scope_index", len(pads) == 1 and pads[0][0] is raw and pads[0][1] is sidx)
+    vc.ensure("returns_and_records_the_padded_samples", out is padded and len(mix) == 1 and mix[0] is padded)
+
+
+for _mix in (False, True):
+    def _h(vc, _mix=_mix):
+        """an inner layer combines the samples of its inputs (all of them, in order); only sum layers report a mixture sample"""
+        q = Obj(vc.repo.lookup(f"{QU}:SamplingQuery"), {"_circuit": Opaque("circuit")})
+        ins = [Opaque("in0"), Opaque("in1")]
+        s, m = Opaque("samples"), (Opaque("mixture") if _mix else None)
+        got = []
+        layer = Opaque("inner_layer", cls=vc.repo.lookup(f"{LI}:TorchSumLayer" if _mix else f"{LI}:TorchHadamardLayer"))
+        layer.attrs["sample"] = lambda o: Builtin("sample", lambda *xs: got.append(list(xs)) or (s, m))
+        mix = []
+        out = vc.call((q, "_layer_fn"), layer, *ins, num_samples=vc.int("num_samples", lo=1), mixture_samples=mix)
+        vc.ensure("samples_of_all_inputs_in_order", len(got) == 1 and len(got[0]) == 2 and got[0][0] is ins[0] and got[0][1] is ins[1])
+        vc.ensure("returns_the_layers_samples", out is s)
+        vc.ensure("mixture_sample_recorded_iff_reported", (len(mix) == 1 and mix[0] is m) if _mix else mix == [])
+    obligation(f"C15.query.layer_fn.inner_layer.{'sum' if _mix else 'product'}", "C15", [f"{QU}:SamplingQuery._layer_fn"])(_h)
+
+
+@obligation("C15.query.call", "C15", [f"{QU}:SamplingQuery.__call__"])
+def _(vc):
+    """the circuit is evaluated once with _layer_fn bound to the requested number of samples; the result (O, K, N, D) of a one-output,
+    one-unit circuit is returned as (N, D): row n is sample n, column d is variable d"""
+    O, K, N, D = vc.int("O", lo=1), vc.int("K", lo=1), vc.int("N", lo=1), vc.int("D", lo=1)
+    ev = vc.tensor("evaluated", (O, K, N, D))
+    seen = {}
+    circ = Opaque("circuit")
+    circ.attrs["evaluate"] = lambda o: Builtin("evaluate", lambda *a, **k: seen.update(a=a, k=k) or ev)
+    q = Obj(vc.repo.lookup(f"{QU}:SamplingQuery"), {"_circuit": circ})
+    res = vc.call((q, "__call__"), N)
+    fn = seen.get("k", {}).get("module_fn")
+    vc.ensure("evaluates_the_circuit_without_inputs", seen.get("a") == ())
+    ok = isinstance(fn, PartialVal) and isinstance(fn.func, FuncVal) and fn.func.info.name == "_layer_fn" and fn.func.self_obj is q
+    vc.ensure("through_its_own_layer_function", ok)
+    if ok:
+        vc.ensure("bound_to_the_requested_number_of_samples", vc.must(to_z3(fn.kwargs.get("num_samples")) == N))
+    samples, mix = res
+    vc.ensure("mixture_samples_list_is_the_one_the_layers_fill", ok and mix is fn.kwargs.get("mixture_samples") and mix == [])
+    if shape_is(vc, samples, [N, D]):
+        n, d = vc.index_consts([N, D])
+        vc.ensure("row_n_is_sample_n_of_the_first_output_unit", samples.elem([n, d]) == ev.elem([0, 0, n, d]))
+
+
+@obligation("C15.query.refusals", "C15", [f"{QU}:SamplingQuery.__call__", f"{QU}:SamplingQuery.__init__"])
+def _(vc):
+    q = Obj(vc.repo.lookup(f"{QU}:SamplingQuery"), {"_circuit": Opaque("circuit")})
+    n = vc.int("num_samples")
+    vc.assume(n <= 0)
+    exc, _ = vc.raises(lambda: vc.call((q, "__call__"), n))
+    vc.ensure("non_positive_number_of_samples_refused", exc == "ValueError")
+    smooth, dec = vc.bool("smooth"), vc.bool("decomposable")
+    vc.assume(z3.Not(z3.And(smooth, dec)))
+    circ = Opaque("circuit", {"properties": Opaque("properties", {"smooth": smooth, "decomposable": dec})})
+    exc, _ = vc.raises(lambda: vc.new(f"{QU}:SamplingQuery", circ))
+    vc.ensure("circuits_that_are_not_smooth_and_decomposable_refused", exc == "ValueError")
